@@ -13,20 +13,28 @@ use dashu_float::{round::mode, round::Round, Context, FBig, Repr};
 use dashu_int::{IBig, UBig, Word};
 use std::fmt::Write as _;
 
-pub trait FPool<R: Round, const B: Word> {
+pub trait FPool<R: Round + 'static, const B: Word> {
     const P: Pool;
     fn split(&mut self) -> (&mut Vec<FBig<R, B>>, &mut Vec<IBig>, &mut Vec<UBig>);
+    /// values of this pool's type living in static memory
+    fn static_bank() -> &'static [&'static FBig<R, B>];
 }
 impl FPool<mode::Zero, 2> for World {
     const P: Pool = Pool::F;
     fn split(&mut self) -> (&mut Vec<FBin>, &mut Vec<IBig>, &mut Vec<UBig>) {
         (&mut self.f, &mut self.i, &mut self.u)
     }
+    fn static_bank() -> &'static [&'static FBin] {
+        crate::statics::fbank()
+    }
 }
 impl FPool<mode::HalfAway, 10> for World {
     const P: Pool = Pool::D;
     fn split(&mut self) -> (&mut Vec<FDec>, &mut Vec<IBig>, &mut Vec<UBig>) {
         (&mut self.d, &mut self.i, &mut self.u)
+    }
+    fn static_bank() -> &'static [&'static FDec] {
+        crate::statics::dbank()
     }
 }
 
@@ -45,7 +53,7 @@ fn tame<R: Round, const B: Word>(x: &FBig<R, B>) -> bool {
         && x.repr().significand().bit_len() <= 4 * MAX_PREC + 64
 }
 
-pub fn exec_f<R: Round, const B: Word>(w: &mut World, op: &Op, rest: &str, env: &mut Env)
+pub fn exec_f<R: Round + 'static, const B: Word>(w: &mut World, op: &Op, rest: &str, env: &mut Env)
 where
     World: FPool<R, B>,
 {
@@ -463,6 +471,26 @@ where
             };
             ww.p[dst] = r;
             env.res(pid, dst);
+        }
+        "static" => {
+            // values living in static memory (static_fbig! / static_dbig!): clone, clone_from, by-reference arithmetic
+            let bank = <World as FPool<R, B>>::static_bank();
+            let st = bank[op.n.unsigned_abs() as usize % bank.len()];
+            let s: FBig<R, B> = match form % 3 {
+                0 => st.clone(),
+                1 => {
+                    let mut t = own!(ww.p[dst], take);
+                    t.clone_from(st);
+                    t
+                }
+                _ => st * FBig::<R, B>::ONE,
+            };
+            ww.p[dst] = s;
+            env.res(pid, dst);
+        }
+        "zeroize" => {
+            zeroize::Zeroize::zeroize(&mut ww.p[a]);
+            env.res(pid, a);
         }
         "splitpoint" => {
             if !tame(&ww.p[a]) {
